@@ -52,8 +52,11 @@ package machine
 //@   props C02 C20
 //@   ensures len: len(ret) == len(coll) && fresh(ret)
 //@   ensures rev: forall i int :: 0 <= i && i < len(coll) ==> ret[i] == coll[len(coll) - 1 - i]
+//@   ensures mem: forall x E :: mem(ret, x) <==> mem(coll, x)
+//@   ensures nodup: nodup(coll) ==> nodup(ret)
 //@   loop 1 invariant len: len(ret) == len(coll) && fresh(ret)
 //@   loop 1 invariant rev: forall j int :: 0 <= j && j < i ==> ret[j] == coll[len(coll) - 1 - j]
+//@   loop 1 invariant back: forall j int :: 0 <= j && j < len(coll) && j >= len(coll) - i ==> coll[j] == ret[len(coll) - 1 - j]
 
 //@ func slicesUniq[T comparable](coll []T) (ret []T)
 //@   props C02 C20
@@ -320,6 +323,7 @@ package machine
 //@   requires locks: unlocked(m.activeStatesMx)
 //@   ensures  fresh: fresh(ret)
 //@   ensures  all:   !old(m.disposing) && isnil(states) ==> seqeq(ret, m.activeStates)
+//@   ensures  disposing: old(m.disposing) ==> len(ret) == 0
 //@   ensures  some:  !old(m.disposing) && !isnil(states) ==> (forall x string :: mem(ret, x) <==> mem(states, x) && mem(m.activeStates, x))
 //@   ensures  locks: unlocked(m.activeStatesMx)
 //@   loop 1 invariant sel: fresh(ret) && (forall x string :: mem(ret, x) <==> (exists j int :: 0 <= j && j < idx1 && states[j] == x && mem(m.activeStates, x)))
@@ -369,7 +373,9 @@ package machine
 //@   ensures  sub:    forall x string :: mem(ret, x) ==> mem(states, x)
 //@   ensures  closed: ReqClosed(rr.Machine.schema, ret)
 //@   ensures  nodup:  nodup(states) ==> nodup(ret)
+//@   ensures  lost:   forall x string :: mem(states, x) && !mem(ret, x) ==> (exists r string :: mem(rr.Machine.schema[x].Require, r) && !mem(ret, r))
 //@   loop 1 invariant sub:   forall x string :: mem(states, x) ==> mem(old(states), x)
+//@   loop 1 invariant lost:  forall x string :: mem(old(states), x) && !mem(states, x) ==> (exists r string :: mem(rr.Machine.schema[x].Require, r) && !mem(states, r))
 //@   loop 1 invariant nodup: nodup(old(states)) ==> nodup(states)
 //@   loop 1 invariant fix:   lengthBefore == len(states) ==> ReqClosed(rr.Machine.schema, states)
 
@@ -377,16 +383,33 @@ package machine
 // already active before the transition and is not Multi.
 //@ pred AddApplies(rr *DefaultRelationsResolver, s string) := !(mem(rr.statesBefore, s) && !rr.Machine.schema[s].Multi)
 
+// AddOf: a is an Add target of s that parseAdd follows (targets called for
+// removal by a Remove mutation are skipped).
+//@ pred AddOf(rr *DefaultRelationsResolver, s string, a string) := mem(rr.Machine.schema[s].Add, a) &&
+//@      !(rr.Transition.Mutation.Type == MutationRemove && mem(rr.Transition.Mutation.Called, index(rr.Index, a)))
+//@ pred AddClosed(rr *DefaultRelationsResolver, r S) := forall s, a string :: mem(r, s) && AddApplies(rr, s) && AddOf(rr, s, a) ==> mem(r, a)
+
 //@ func (rr *DefaultRelationsResolver) parseAdd(states S) (ret S)
 //@   props C02
 //@   requires nn: rr.Transition != nil && rr.Transition.Mutation != nil && rr.Transition.Machine != nil && rr.Machine != nil
 //@   ensures  sup:       forall x string :: mem(states, x) ==> mem(ret, x)
-//@   ensures  justified: forall x string :: mem(ret, x) ==> mem(states, x) || (exists s string :: mem(states, s) && mem(rr.Machine.schema[s].Add, x))
+//@   ensures  justified: forall x string :: mem(ret, x) ==> mem(states, x) || (exists s string :: mem(ret, s) && mem(rr.Machine.schema[s].Add, x))
+//@   ensures  closed:    AddClosed(rr, ret)
+//@   ensures  defined:   SchemaRefs(rr.Machine.schema) && (forall x string :: mem(states, x) ==> has(rr.Machine.schema, x)) ==> (forall x string :: mem(ret, x) ==> has(rr.Machine.schema, x))
 //@   loop 1 invariant sup:       forall x string :: mem(states, x) ==> mem(ret, x)
-//@   loop 1 invariant justified: forall x string :: mem(ret, x) ==> mem(states, x) || (exists s string :: mem(states, s) && mem(rr.Machine.schema[s].Add, x))
+//@   loop 1 invariant justified: forall x string :: mem(ret, x) ==> mem(states, x) || (exists s string :: mem(ret, s) && mem(rr.Machine.schema[s].Add, x))
+//@   loop 1 invariant visited:   forall v, a string :: mem(visited, v) ==> mem(ret, v) && (AddOf(rr, v, a) ==> mem(ret, a))
+//@   loop 1 invariant fix:       !changed ==> AddClosed(rr, ret)
+//@   loop 1 invariant defined:   SchemaRefs(rr.Machine.schema) && (forall x string :: mem(states, x) ==> has(rr.Machine.schema, x)) ==> (forall x string :: mem(ret, x) ==> has(rr.Machine.schema, x))
+//@   loop 2 let rs := ret
 //@   loop 2 invariant sup:       forall x string :: mem(states, x) ==> mem(ret, x)
-//@   loop 2 invariant justified: forall x string :: mem(ret, x) ==> mem(states, x) || (exists s string :: mem(states, s) && mem(rr.Machine.schema[s].Add, x))
-//@   loop 3 invariant sub:       forall x string :: mem(addStates, x) ==> mem(state.Add, x)
+//@   loop 2 invariant grow:      forall x string :: mem(rs, x) ==> mem(ret, x)
+//@   loop 2 invariant justified: forall x string :: mem(ret, x) ==> mem(states, x) || (exists s string :: mem(ret, s) && mem(rr.Machine.schema[s].Add, x))
+//@   loop 2 invariant visited:   forall v, a string :: mem(visited, v) ==> mem(ret, v) && (AddOf(rr, v, a) ==> mem(ret, a))
+//@   loop 2 invariant defined:   SchemaRefs(rr.Machine.schema) && (forall x string :: mem(states, x) ==> has(rr.Machine.schema, x)) ==> (forall x string :: mem(ret, x) ==> has(rr.Machine.schema, x))
+//@   loop 2 invariant settled:   !changed ==> (forall x string :: mem(ret, x) ==> mem(rs, x)) && (forall j int, a string :: 0 <= j && j < idx2 && AddApplies(rr, rs[j]) && AddOf(rr, rs[j], a) ==> mem(ret, a))
+//@   loop 3 invariant sel:       forall x string :: mem(addStates, x) <==> (exists j int :: 0 <= j && j < idx3 && state.Add[j] == x && AddOf(rr, name, x))
+//@   loop 3 invariant nil:       len(addStates) == 0 ==> isnil(addStates)
 
 //@ func (rr *DefaultRelationsResolver) SortStates(states S)
 //@   props C02 C05
@@ -411,7 +434,125 @@ package machine
 //@   ensures  nodup:   nodup(ret)
 //@   ensures  defined: forall x string :: mem(ret, x) ==> has(t.Machine.schema, x)
 //@   ensures  justified_in: forall x string :: mem(ret, x) ==> mem(statesToSet, x) || (exists s string :: has(t.Machine.schema, s) && mem(t.Machine.schema[s].Add, x))
+//@   ensures  add_followed: forall s, a string :: mem(ret, s) && AddApplies(rr, s) && AddOf(rr, s, a) ==>
+//@                mem(ret, a) || mem(toRemove, a) || (exists r string :: mem(t.Machine.schema[a].Require, r) && !mem(ret, r))
+//@   ensures  removed_by_survivor: forall x string :: mem(toRemove, x) ==> (exists b string :: mem(survivors, b) && mem(t.Machine.schema[b].Remove, x))
+//@   ensures  remove_consistent: forall s, b string :: mem(ret, s) && mem(ret, b) && s != b ==> !mem(t.Machine.schema[b].Remove, s)
 //@   ensures  remove_consistent_mod_resurrection: forall s, b string :: mem(ret, s) && mem(ret, b) && mem(t.Machine.schema[b].Remove, s) ==> !mem(survivors, b)
 //@   ensures  locks:   unlocked(t.Machine.schemaMx)
 //@   loop 1 let survivors := resolvedS
 //@   loop 1 invariant rm: forall j int, x string :: 0 <= j && j < idx1 && mem(t.Machine.schema[resolvedS[j]].Remove, x) ==> mem(toRemove, x)
+//@   loop 1 invariant mid_defined: forall x string :: mem(resolvedS, x) ==> has(t.Machine.schema, x)
+//@   loop 1 invariant mid_just: forall x string :: mem(resolvedS, x) ==> mem(old(statesToSet), x) || (exists s string :: has(t.Machine.schema, s) && mem(t.Machine.schema[s].Add, x))
+//@   loop 1 invariant mid_rr: rr.Machine == t.Machine && rr.Transition == t
+//@   loop 1 invariant by: forall x string :: mem(toRemove, x) ==> (exists b string :: mem(resolvedS, b) && mem(t.Machine.schema[b].Remove, x))
+
+// ---- C20: values documented as copies are the caller's to modify ----
+
+// FreshState: every list of a state value is detached from older memory.
+//@ pred FreshState(s State) := fresh(s.Require) && fresh(s.Add) && fresh(s.Remove) && fresh(s.After) && fresh(s.Tags)
+//@ pred SameState(a State, b State) := a.Auto == b.Auto && a.Multi == b.Multi && seqeq(a.Require, b.Require) && seqeq(a.Add, b.Add) && seqeq(a.Remove, b.Remove) && seqeq(a.After, b.After) && seqeq(a.Tags, b.Tags)
+
+//@ func (s State) Clone() (r State)
+//@   props C20
+//@   ensures same:  SameState(r, s)
+//@   ensures fresh: FreshState(r)
+
+//@ func (s Schema) Clone() (ret Schema)
+//@   props C20
+//@   ensures fresh: fresh(ret) && !isnil(ret)
+//@   ensures keys:  forall k string :: has(ret, k) <==> has(s, k)
+//@   ensures vals:  forall k string :: has(s, k) ==> SameState(ret[k], s[k]) && FreshState(ret[k])
+//@   loop 1 invariant inv: fresh(ret) && !isnil(ret) && (forall k string :: has(ret, k) <==> visited1[k]) && (forall k string :: has(ret, k) ==> SameState(ret[k], s[k]) && FreshState(ret[k]))
+
+//@ func (m *Machine) Schema() (ret Schema)
+//@   props C12 C20
+//@   requires locks: unlocked(m.schemaMx)
+//@   ensures  fresh: fresh(ret) && !isnil(ret)
+//@   ensures  keys:  forall k string :: has(ret, k) <==> has(m.schema, k)
+//@   ensures  vals:  forall k string :: has(m.schema, k) ==> SameState(ret[k], m.schema[k]) && FreshState(ret[k])
+//@   ensures  locks: unlocked(m.schemaMx)
+
+//@ func (m *Machine) Queue() (ret []*Mutation)
+//@   props C12 C20
+//@   requires locks: unlocked(m.queueMx)
+//@   ensures  copy:  fresh(ret) && (!old(m.disposing) ==> seqeq(ret, m.queue)) && (old(m.disposing) ==> isnil(ret))
+//@   ensures  locks: unlocked(m.queueMx)
+
+//@ func (m *Machine) Tracers() (ret []Tracer)
+//@   props C12 C20
+//@   requires locks: unlocked(m.tracersMx)
+//@   ensures  copy:  fresh(ret) && seqeq(ret, m.tracers)
+//@   ensures  locks: unlocked(m.tracersMx)
+
+//@ func (m *Machine) Switch(groups ...S) (r string)
+//@   props C01 C20
+//@   requires locks: unlocked(m.activeStatesMx)
+//@   ensures  hit:   r != "" ==> !m.disposing && mem(m.activeStates, r) && (exists g int :: 0 <= g && g < len(groups) && mem(groups[g], r))
+//@   requires names: forall g int, x string :: 0 <= g && g < len(groups) && mem(groups[g], x) ==> x != ""
+//@   ensures  miss:  r == "" ==> (forall g int, x string :: 0 <= g && g < len(groups) && mem(groups[g], x) ==> m.disposing || !mem(m.activeStates, x))
+//@   ensures  locks: unlocked(m.activeStatesMx)
+//@   loop 1 invariant none: unlocked(m.activeStatesMx) && (forall g int, x string :: 0 <= g && g < idx1 && mem(groups[g], x) ==> !mem(activeStates, x))
+//@   loop 2 invariant none: forall j int :: 0 <= j && j < idx2 ==> !mem(activeStates, states[j])
+
+// ---- C02/C03/C05: transition set-up ----
+
+//@ func (t *Transition) TargetStates() (ret S)
+//@   trusted cached getter: the resolved target set stored by newTransition (cacheTargetStates); only the cache-hit path is specified
+//@   ensures cached: t.cacheTargetStates != nil ==> ret == *t.cacheTargetStates
+//@ func (t *Transition) CalledStates() (ret S)
+//@   trusted cached getter: the called states of the mutation (cacheCalled); only the cache-hit path is specified
+//@   ensures cached: t.Mutation.cacheCalled != nil ==> ret == *t.Mutation.cacheCalled
+
+//@ func (t *Transition) statesToSet(mutType MutationType, states S) (ret S)
+//@   props C02 C03
+//@   requires nn: t.Machine != nil && t.Mutation != nil
+//@   ensures  add:    mutType == MutationAdd ==> (forall x string :: mem(ret, x) <==> mem(states, x) || mem(t.Machine.activeStates, x))
+//@   ensures  remove: mutType == MutationRemove ==> (forall x string :: mem(ret, x) <==> mem(t.Machine.activeStates, x) && !mem(states, x))
+//@   ensures  set:    mutType == MutationSet ==> ret == states
+//@   ensures  other:  mutType != MutationAdd && mutType != MutationRemove && mutType != MutationSet ==> isnil(ret)
+
+//@ func (t *Transition) setupExitEnter()
+//@   props C05 C03
+//@   requires nn:    t.Machine != nil && t.Mutation != nil && t.Machine.resolver != nil
+//@   requires cached: t.cacheTargetStates != nil && t.Mutation.cacheCalled != nil
+//@   assigns  t.Exits, t.Enters
+//@   ensures  exits:  forall x string :: mem(t.Exits, x) <==> mem(t.Machine.activeStates, x) && !mem(tgt, x)
+//@   ensures  enters: forall x string :: mem(t.Enters, x) <==> mem(tgt, x) &&
+//@                      (!(!t.Machine.disposing && mem(t.Machine.stateNames, x) && mem(t.Machine.activeStates, x)) || (t.Machine.schema[x].Multi && mem(cld, x)))
+//@   loop 1 let tgt := targetStates
+//@   loop 1 let cld := *t.Mutation.cacheCalled
+//@   loop 1 invariant sel: forall x string :: mem(enters, x) <==> (exists j int :: 0 <= j && j < idx1 && targetStates[j] == x &&
+//@                      (!(!t.Machine.disposing && mem(t.Machine.stateNames, x) && mem(t.Machine.activeStates, x)) || (t.Machine.schema[x].Multi && mem(cld, x))))
+
+// Interface contracts (assumed of every RelationsResolver implementation; the
+// default implementation above is verified against the same clauses).
+//@ func (rr RelationsResolver) SortStates(states S)
+//@   trusted interface contract; DefaultRelationsResolver.SortStates is verified against it
+//@   mutates states
+//@   ensures  perm:  len(post(states)) == len(states) && (forall x string :: mem(post(states), x) <==> mem(states, x))
+//@   ensures  nodup: nodup(states) ==> nodup(post(states))
+
+// ---- C07 / C11: auto mutation ----
+
+//@ func (m *Machine) Index(states S) (ret []int)
+//@   trusted index lookup via StateNames() (shared cached copy); specified here by its result only
+//@   ensures def: !m.disposing ==> len(ret) == len(states) && (forall i int :: 0 <= i && i < len(states) ==> ret[i] == index(m.stateNames, states[i]))
+
+// AutoWanted: an inactive Auto state that no active state Removes.
+//@ opred AutoWantedV(schema Schema, names S, active S, disposing bool, x string) := has(schema, x) && schema[x].Auto
+//@      && !(!disposing && mem(names, x) && mem(active, x))
+//@      && !(exists a string :: mem(active, a) && mem(schema[a].Remove, x))
+//@ pred AutoWanted(m *Machine, x string) := AutoWantedV(m.schema, m.stateNames, m.activeStates, m.disposing, x)
+
+//@ func (rr *DefaultRelationsResolver) NewAutoMutation() (mut *Mutation, names S)
+//@   props C07 C11
+//@   requires nn:    rr.Transition != nil && rr.Transition.Machine != nil
+//@   ensures  set:   forall x string :: mem(names, x) <==> AutoWanted(rr.Transition.Machine, x)
+//@   ensures  nodup: nodup(names)
+//@   ensures  none:  (mut == nil) <==> (len(names) == 0)
+//@   ensures  kind:  mut != nil ==> fresh(mut) && mut.IsAuto && mut.Type == MutationAdd && !mut.IsCheck && mut.QueueTick == 0
+//@   ensures  order: forall i, j int :: 0 <= i && i < j && j < len(names) ==> index(rr.Transition.Machine.stateNames, names[i]) < index(rr.Transition.Machine.stateNames, names[j])
+//@   loop 1 invariant set:   forall x string :: mem(toAdd, x) <==> (visited1[x] && AutoWanted(m, x))
+//@   loop 1 invariant nodup: nodup(toAdd)
+//@   loop 2 invariant none:  forall j int :: 0 <= j && j < idx2 ==> !mem(m.schema[m.activeStates[j]].Remove, s)
